@@ -125,6 +125,7 @@ fn main() {
                     let corpus_seed: u64 = arg(&args, "--corpus-seed").and_then(|s| s.parse().ok()).unwrap_or(1);
                     let texts = rv::record::cands_corpus(&r.or, quick, corpus_seed);
                     r.driver_cands(&texts, shard, shards);
+                    r.driver_cands_userac(shard, shards);
                 }
                 d => {
                     eprintln!("rv: unknown driver {}", d);
